@@ -50,6 +50,18 @@ MaxAssigned(asg, scopes) ==
     LET S == {EvalE(asg[i][2], scopes) : i \in 1..Len(asg)}
     IN IF S = {} THEN 0 ELSE CHOOSE m \in S : \A o \in S : o <= m
 
+\* <reuse a="3"> of a target that itself carries a="1": the target's attribute
+\* is a default which the reuse element's attribute overrides
+RECURSIVE Override(_, _)
+Override(tloc, rloc) ==
+    IF tloc = <<>> THEN <<>>
+    ELSE LET x == Head(tloc)[1]
+             S == {i \in 1..Len(rloc) : rloc[i][1] = x}
+             v == IF S = {} THEN Head(tloc)[2] ELSE rloc[CHOOSE i \in S : \A j \in S : j <= i][2]
+         IN <<<<x, v>>>> \o Override(Tail(tloc), rloc)
+
+Instance(tgt, reuse) == [tgt EXCEPT !.loc = Override(tgt.loc, reuse.loc)]
+
 \* ids that are certainly registered at some point: leaf / g nodes not below
 \* a conditional or a loop (the generators keep reference targets there)
 RECURSIVE RegStatic(_)
@@ -110,10 +122,11 @@ EvNode(nd, st, d, C) ==
       [] nd.k = "specs" ->
            IF st.specs THEN [st EXCEPT !.err = "document"]
            ELSE LET s2 == EvKids(nd, [st EXCEPT !.specs = TRUE], d + 1, C)
-                IN [s2 EXCEPT !.specs = FALSE, !.unr = Append(st.unr, nd)]
+                   \* errors inside <specs> are ignored (a template may lack context)
+                IN [s2 EXCEPT !.specs = FALSE, !.err = "-", !.sc = st.sc, !.unr = Append(st.unr, nd)]
       [] nd.k = "reuse" ->
            IF nd.href \notin C.regs THEN [st EXCEPT !.err = "ref"]
-           ELSE LET tgt == C.flat[CHOOSE j \in 1..Len(C.flat) : C.flat[j].id = nd.href]
+           ELSE LET tgt == Instance(C.flat[CHOOSE j \in 1..Len(C.flat) : C.flat[j].id = nd.href], nd)
                     s1 == [st EXCEPT !.sc = Append(@, ScopeOf(nd.loc)), !.inl = nd.id, !.unr = <<>>]
                     \* the instance occupies a level of its own in the pinned code
                     \* (C.rc = 1); an implementation is free not to (C.rc = 0)
